@@ -88,7 +88,8 @@ class FluxWorld:
 
     def reset(self, fail=(), pool=None, unknown=(), dead=None, order=None):
         self.unknown = set(unknown)    # integer ids the broker does not know (job-list RPC error per id)
-        self.dead = dead               # an exception instance: the job-list RPC itself fails
+        self.dead = dead               # an exception instance: the job-list RPC itself fails ...
+        self.dead_where = "jobs"       # ... in JobList.jobs() | "joblist" (constructor) | "handle" (flux.Flux())
         self.order = list(order) if order else None   # integer ids in the order the broker answers
         self.fail = set(fail)          # integer ids whose cancel raises
         self.cancels = []              # integer ids flux.job.cancel was called with
@@ -149,6 +150,9 @@ class JobList:
     """flux.job.list.JobList: jobs() fetches; the object itself is not iterable."""
 
     def __init__(self, flux_handle, attrs=("all",), filters=(), ids=(), user=None, max_entries=1000, **kw):
+        if WORLD.dead is not None and WORLD.dead_where == "joblist":
+            WORLD.lists += 1
+            raise WORLD.dead
         self.handle = flux_handle
         self.ids = [JobID(i) for i in ids]
         self.errors = []
@@ -159,7 +163,7 @@ class JobList:
     def jobs(self):
         # as in flux-core: `errors` is empty until the fetch has run, then holds one text per unknown id
         WORLD.lists += 1
-        if WORLD.dead is not None:
+        if WORLD.dead is not None and WORLD.dead_where == "jobs":
             raise WORLD.dead
         self.errors = ["JobID %s unknown" % i.f58 for i in self.ids if int(i) in WORLD.unknown]
         known = [i for i in self.ids if int(i) not in WORLD.unknown]
@@ -235,7 +239,8 @@ def _flux_submit(flux_handle, jobspec, waitable=False, urgency=16, **kw):
 
 class Flux:
     def __init__(self, *a, **k):
-        pass
+        if WORLD.dead is not None and WORLD.dead_where == "handle":
+            raise WORLD.dead
 
     def attr_get(self, name):
         return "0.49.0" if name == "version" else ""
